@@ -253,6 +253,7 @@ pub fn run_dispatch_forced(r: &mut Recorded, world: &World, mode: Mode, f: &Forc
 
 /// One top-level dispatch call, recorded as begin .. end.
 pub fn run_dispatch(r: &mut Recorded, world: &World, opts: &ExecOpts) -> ExecStats {
+    r.rec.ctx.panic_once.store(false, Ordering::Relaxed);
     run_dispatch_with(r, world, opts, None).0
 }
 
@@ -410,6 +411,7 @@ pub mod asyncx {
             ps.clear();
             ps.extend(panics.iter().copied());
         }
+        ctx.panic_once.store(true, Ordering::Relaxed);
         // setup first (creates the resources), then the session proper
         s.ad.setup();
         {
